@@ -173,8 +173,12 @@ sexp sexp_arithmetic_shift (sexp ctx, sexp self, sexp_sint_t n, sexp i, sexp cou
             if (!tmp && bit_shift != 0 && offset < len)
               tmp = sexp_bignum_data(i)[offset]
                 << (sizeof(sexp_uint_t)*CHAR_BIT-bit_shift);
-            if (tmp)
+            if (tmp) {
+              /* the carry may need a longer bignum, copied from res */
+              sexp_gc_preserve1(ctx, res);
               res = sexp_bignum_fxadd(ctx, res, 1);
+              sexp_gc_release1(ctx);
+            }
           }
         }
       }
